@@ -53,6 +53,14 @@ def main():
             'ran': ['pytest in the worktree with the change', 'demo.py with / without the change',
                     'VERIF_REPO=<worktree> ./check %s --tier %s' % (prop, tier)],
             'check_result': {'tier': tier, 'exit': rc_k, 'caught': caught, 'clauses': clauses[:8]}}
+    if os.path.exists(os.path.join(dst, 'meta.json')):      # keep what was written by hand about this change
+        try:
+            old = json.load(open(os.path.join(dst, 'meta.json')))
+            for k in ('summary', 'first_run'):
+                if k in old:
+                    meta[k] = old[k]
+        except Exception:  # noqa
+            pass
     json.dump(meta, open(os.path.join(dst, 'meta.json'), 'w'), indent=1)
     print('%-28s confirmed=%s caught=%s rc=%d clauses=%s' % (name, confirmed, caught, rc_k, ','.join(clauses[:5])))
     if not caught:
